@@ -15,8 +15,8 @@ TITLE = 'dictable behaves as a rectangular list of records under any operation h
 STATEMENT = ('after any history of public table operations every column has one length, len/shape agree, d[i][c] == d[c][i], '
              'iteration yields the rows, concat appends rows with None fill, operands are never altered and a non-fitting '
              'assignment is rejected with ValueError')
-LEAN_FILES = ['Basic', 'Cmp', 'Sort', 'TableBasic', 'Table', 'TableDriver', 'TableLemmas', 'TableRect', 'TableRows', 'TableCons',
-              'TableNodup', 'SliceLemmas', 'C01']
+LEAN_FILES = ['Basic', 'Cmp', 'Sort', 'TableBasic', 'Table', 'TableSpec', 'TableDriver', 'TableLemmas', 'TableRect', 'TableRows',
+              'TableCons', 'TableNodup', 'SliceLemmas', 'TableAbs', 'TableAbs2', 'TableAbsHeap', 'TableCall', 'C01']
 RULE = ('distinct protocol lines of generated histories on which the implementation returned a value (not an exception); '
         'every line also compares the dump of all live tables')
 TRUSTED = ['correspondence harness (pv.engine, pv.proto) and generators / law checks of pv.props.c01',
